@@ -1,12 +1,11 @@
 #!/bin/bash
-# usage: try_seed.sh <patch.diff> <prop> [<prop> ...]   - apply a seeded change to /repo, run checks, revert
+# usage: try_seed.sh <patch.diff> <prop> [<prop> ...]   - apply a seeded change to /repo, run checks, ALWAYS revert
 P="$1"; shift
 cd /repo || exit 9
 git diff --quiet || { echo "repo dirty"; exit 9; }
+trap 'git -C /repo checkout -- . ' EXIT INT TERM
 git apply "$P" || { echo "patch does not apply"; exit 8; }
 for prop in "$@"; do
-  out=$(cd /verif && ./vcheck "$prop" --tier quick 2>&1 | grep -E "^(VIOLATION|UNDECIDED|CHECKER-ERROR|KNOWN|C[0-9]+:)" | cut -c1-330)
-  rc=$?
+  out=$(cd /verif && timeout ${SEED_TIMEOUT:-1000} ./vcheck "$prop" --tier quick 2>&1 | grep -E "^(VIOLATION|UNDECIDED|CHECKER-ERROR|KNOWN|C[0-9]+:)" | cut -c1-330)
   echo "--- $prop:"; echo "$out" | head -8
 done
-git checkout -- . 
